@@ -85,7 +85,7 @@ def run(tier):
     violations = [{"kind": "broken-proof-obligation", "what": b, "no_failing_input": True, "input": b} for b in po["broken"]]
     c = Counter()
     import docs as _docs
-    dl = _docs.handcrafted() + docrun.synthesized(sd + 1, 10 if tier == "quick" else 120, ncontracts=2, nblocks=5) + docrun.shipped(60000 if tier == "quick" else 900000)
+    dl = _docs.handcrafted() + _docs.multi_section() + docrun.synthesized(sd + 1, 10 if tier == "quick" else 120, ncontracts=2, nblocks=5) + docrun.shipped(60000 if tier == "quick" else 900000)
     osets = [["-greedy"], ["-greedy", "-storage"], ["-greedy", "-size", "-partition"], ["-greedy", "-push0"]]
     reqs = []
     samples = []
